@@ -283,7 +283,9 @@ func c19Families(tier string) []engine.Family {
 			return
 		}
 		if err != nil {
-			engine.Fail("race pass failed: %v\n%s", err, trunc(s, 2000))
+			// the free-running pass crashed or returned a wrong result (e.g. "fatal error: concurrent map writes")
+			x.Violation("free-running-pass", "crash-or-mismatch", "free-running-pass", fmt.Sprintf("%v: %s", err, trunc(s, 1500)), map[string]interface{}{"output": trunc(s, 3000)})
+			return
 		}
 		var rounds, mismatches int
 		fmt.Sscanf(s[strings.LastIndex(s, "racepass:"):], "racepass: rounds=%d mismatches=%d", &rounds, &mismatches)
